@@ -44,7 +44,13 @@ pub fn cap_strategy(big: u32) -> BoxedStrategy<usize> {
         3 => prop::sample::select(vec![0usize, 1, 2, 3, 4]),
         8 => 5usize..24,
         3 => 24usize..64,
-        big => prop_oneof![64usize..600, Just(512usize)],
+        big => prop_oneof![
+            10 => 64usize..600,
+            10 => Just(512usize),
+            // beyond std's default BufWriter size and the datagram limit: the writer's own
+            // capacity is what counts, whatever an inner buffer would prefer
+            1 => prop_oneof![8190usize..8196, Just(16384usize), 65534usize..65540, Just(70_000usize), Just(131_072usize)],
+        ],
     ]
     .boxed()
 }
